@@ -392,6 +392,15 @@ func normalizeStructInto(cfg *Config, opts *options, from reflect.Value) Error {
 
 		if tagOpts.squash {
 			vField := chaseValue(v.Field(i))
+			if c, ok := tryTConfig(vField); ok {
+				// (*Config is a struct without exported fields: its settings
+				// were dropped silently)
+				err = normalizeUnite(opts, cfg, c.Addr().Interface().(*Config))
+				if err != nil {
+					return err
+				}
+				continue
+			}
 			switch vField.Kind() {
 			case reflect.Struct:
 				err = normalizeStructInto(cfg, opts, vField)
